@@ -340,16 +340,31 @@ class Interp:
                 self._put(out, (f, RAISE("AssertionError")), tr)
         return out
 
+    def _assume(self, test, truth, s):
+        """Structural decomposition of a branch condition before the domain sees it (only the sound directions):
+        `not X` flips; `A and B` taken -> A taken, B taken; `A or B` not taken -> A not taken, B not taken.  Atomic tests and the
+        remaining directions go to the domain unchanged, so a domain need not know how the author combined its conditions."""
+        if isinstance(test, ast.UnaryOp) and isinstance(test.op, ast.Not) and isinstance(test.operand, ast.BoolOp):
+            return self._assume(test.operand, not truth, s)
+        if isinstance(test, ast.BoolOp) and ((isinstance(test.op, ast.And) and truth) or (isinstance(test.op, ast.Or) and not truth)) \
+                and not getattr(self.dom, "whole_boolops", False):
+            for v in test.values:
+                s = self._assume(v, truth, s)
+                if s is None:
+                    return None
+            return s
+        return self.dom.assume(test, truth, s)
+
     # -------------------------------------------------- compound statements
     def s_If(self, node, states, cur_exc):
         out = {}
         cur = self.eval(node.test, states, out)
         tstates, fstates = {}, {}
         for s, tr in cur.items():
-            t = self.dom.assume(node.test, True, s)
+            t = self._assume(node.test, True, s)
             if t is not None:
                 self._put(tstates, t, tr)
-            f = self.dom.assume(node.test, False, s)
+            f = self._assume(node.test, False, s)
             if f is not None:
                 self._put(fstates, f, tr)
         for k, tr in self.block(node.body, tstates, cur_exc).items():
@@ -376,10 +391,10 @@ class Interp:
             cur = self.eval(node.test, new, out)
             tstates = {}
             for s, tr in cur.items():
-                t = self.dom.assume(node.test, True, s)
+                t = self._assume(node.test, True, s)
                 if t is not None:
                     self._put(tstates, t, tr)
-                f = self.dom.assume(node.test, False, s)
+                f = self._assume(node.test, False, s)
                 if f is not None:
                     self._put(exits, f, tr)
             for (s, oc), tr in self.block(node.body, tstates, cur_exc).items():
